@@ -22,7 +22,10 @@ import (
 	"verifharness/lib"
 )
 
-var raceParts = []string{"loader", "files", "values", "types", "declare"}
+var raceParts = []string{"loader", "files", "values", "types", "declare", "firstdo"}
+
+// the part "firstdo" (the first use of the runtime by N goroutines at once) is once per process: it is run this many times
+const firstDoProcesses = 6
 
 type raceParams struct {
 	Kind   string `json:"kind"`
@@ -137,6 +140,10 @@ func shortFunc(f string) string {
 	return strings.TrimPrefix(f, "github.com/lyraproj/pcore/")
 }
 
+// the placeholder that Hash.privateReducedType publishes before it fills in the key and the value type, observed as the
+// type of a shared Hash whose type is something else (n entries: Hash[Any, Any, n, n])
+var halfBuiltHash = regexp.MustCompile(`^FUNCTIONAL values PType of shared value \d+ observed as Hash\[Any, Any, (\d+), (\d+)\], it is Hash\[`)
+
 // the unsynchronised lazily filled caches of shared values (ConcLazy.v models their logic; that the reads and
 // writes of the fields race in the sense of the Go memory model is the open finding lazy-cache-data-race)
 var lazyCacheFuncs = map[string]bool{
@@ -163,6 +170,21 @@ func raceTags(r raceReport) []string {
 // history: GORACE history_size (the per-goroutine access history is 32K * 2^history entries; a report whose
 // earlier access has left the history has no stack for it)
 func runRacePart(bin string, p raceParams, dir string, limit time.Duration, history int) (stdout, stderr string, err error) {
+	if p.Part == "firstdo" && p.Rounds > 1 {
+		// one fresh process per round; a process that does not finish ends the series and is what is judged
+		q := p
+		q.Rounds = 1
+		for k := 0; k < p.Rounds; k++ {
+			so, se, e := runRacePart(bin, q, dir, limit, history)
+			if e != nil || !strings.Contains(so, "DONE ") {
+				return so, se, e
+			}
+			stdout, stderr = stdout+so, stderr+se
+			q.Seed++
+			q.N = 2 + (q.N+k)%7
+		}
+		return stdout, stderr, nil
+	}
 	args := []string{"-part", p.Part, "-dir", dir, "-n", fmt.Sprint(p.N), "-iters", fmt.Sprint(p.Iters),
 		"-rounds", fmt.Sprint(p.Rounds), "-seed", fmt.Sprint(p.Seed)}
 	cmd := exec.Command(bin, args...)
@@ -216,6 +238,13 @@ func judgeRace(res *lib.Result, p raceParams, stdout, stderr string, err error, 
 			res.Count("race.functional." + p.Part)
 			if verbose {
 				fmt.Println(l)
+			}
+			if halfBuiltHash.MatchString(l) {
+				// open finding hash-reduced-half-built seen by free-running goroutines: Hash.privateReducedType stores
+				// Hash[Any,Any,n,n] in the value before the key and value types are filled in, and a second goroutine
+				// was handed exactly that placeholder (the controlled part lazy.go reports it under the same clause and tag)
+				res.Violate(lib.Violation{Clause: "never-half-built", What: "free-running goroutines: " + strings.TrimPrefix(l, "FUNCTIONAL "), Input: p, Tags: []string{"hash.reduced"}})
+				continue
 			}
 			res.Violate(lib.Violation{Clause: "stress-functional", What: "free-running goroutines: " + strings.TrimPrefix(l, "FUNCTIONAL "), Input: p})
 		case strings.HasPrefix(l, "DONE "):
@@ -281,6 +310,12 @@ func runRace(cfg *lib.Config, res *lib.Result, rng *lib.Rng) {
 			p.Iters, p.Rounds = 40, 40
 			if cfg.Thorough() {
 				p.Iters, p.Rounds = 60, 400
+			}
+		}
+		if part == "firstdo" {
+			p.Iters, p.Rounds = 1, firstDoProcesses
+			if cfg.Thorough() {
+				p.Rounds = 10 * firstDoProcesses
 			}
 		}
 		wg.Add(1)
